@@ -121,6 +121,11 @@ class Scanner(Interp):
             st = span.fields['start']
             avail = span.fields['stop'] - st
             self.event('decode', st, 'info' if info_only else 'full', kwargs.get('start_signature', 'DEFAULT'))
+            mgr = callee.recv.fields.get('compiled_template_manager') if isinstance(callee, UnknownMethod) and isinstance(callee.recv, Obj) else None
+            if isinstance(mgr, Obj):
+                # what the decoder's compiled-template cache holds when this decode starts (C20.R2)
+                cache = mgr.fields.get('cache')
+                self.event('compiled_cache', st, sorted(repr(v) for v in cache.values()) if isinstance(cache, dict) else repr(cache))
             m = self.msgs.get(st)
             if m is None:
                 raise Raise('BitReadError', node, self.where(node, frame))      # garbage after a decoy signature
